@@ -117,3 +117,32 @@ def arm_paths(F, vm, name):
                 preds["variant(%s)" % c[3]] = c[2] if c[0] == "variant" else ("not", tuple(c[2]))
         out.append((preds, [e for e in s2.trace if e[0] in ("pop", "push", "jump")]))
     return out
+
+
+# ------------------------------------------------------------------------------------ binary operator tables of the value layer
+
+def binop_table(F, op, meth):
+    """decision table of `impl std::ops::<op> for CelValue` after widening: {(variant of left, variant of right): [(path predicates, result text)]}
+    type_prop is replaced by an arbitrary pair (ta, tb) - its own table is C03 R03.7"""
+    import symex
+    CVT = "rscel::types::cel_value::CelValue"
+
+    class OpPolicy(LogicPolicy):
+        max_paths = 8000
+
+        def stub(self, interp, st, path, c, args, t, caller):
+            if path.endswith("CelValue::type_prop"):
+                return [(st, ("tup", (symex.U("ta", CVT), symex.U("tb", CVT))))]
+            return None
+    ob = F.body("<rscel::types::cel_value::CelValue as std::ops::%s>::%s" % (op, meth))
+    it = symex.Interp(F, OpPolicy())
+    table = {}
+    for st, r in it.run(ob, [symex.U("a", CVT), symex.U("b", CVT)]):
+        rr = symex.render(r)
+        if rr in ("a", "b"):
+            continue
+        va = [c[2] for c in st.cond if c[0] == "variant" and c[3] == "ta"]
+        vb = [c[2] for c in st.cond if c[0] == "variant" and c[3] == "tb"]
+        preds = tuple((c[2], str(c[3])) for c in st.cond if c[0] == "variant" and c[3] not in ("ta", "tb") and c[1] in ("Option", "Result"))
+        table.setdefault((va[0] if va else "other", vb[0] if vb else "other"), []).append((preds, rr))
+    return ob, table
